@@ -290,7 +290,7 @@ func c14Recover(c *c14ctx, S []num, alphabet map[string]interface{}) {
 	engine.ParFor(len(jobs), func(j int) {
 		rv, sv := R[jobs[j].ri], Sv[jobs[j].si]
 		rOK, sOK := secp.ValidScalar(rv.V), secp.ValidScalar(sv.V)
-		highS := sv.V.Bit(255) == 1
+		highS := sv.V.Cmp(secp.HalfN) > 0 // s above n/2: whether such a signature is accepted is a policy (C10), not mathematics
 		for _, z := range M {
 			msg := b32(z.V)
 			var h cipher.SHA256
@@ -385,29 +385,44 @@ func c14Recover(c *c14ctx, S []num, alphabet map[string]interface{}) {
 					r.Failf("cipher.PubKeyFromSig:wrong-key", cs, "%s: key=%x, model %x", desc, pk[:], want)
 				}
 				// signature acceptance rule
-				accRule := wantOK && !highS
+				// mathematically valid = in-range r,s, recid 0..3, recovery succeeds. Valid with s <= n/2 must be accepted,
+				// invalid must be rejected; valid with s > n/2 may go either way here (the low-s policy belongs to C10): recorded.
+				wrong := func(accepted, valid bool) bool {
+					if !valid {
+						return accepted
+					}
+					if highS {
+						if accepted {
+							c.lax.Add("high-s-valid-signature:accepted")
+						} else {
+							c.lax.Add("high-s-valid-signature:rejected")
+						}
+						return false
+					}
+					return !accepted
+				}
 				if pn, pm := engine.Catch(func() { err = cipher.VerifySignatureRecoverPubKey(csig, h) }); pn {
 					r.Failf("cipher.VerifySignatureRecoverPubKey:panic-instead-of-error", cs, "%s: panics: %s", desc, pm)
-				} else if (err == nil) != accRule {
-					r.Failf("cipher.VerifySignatureRecoverPubKey:wrong-verdict", cs, "%s: err=%v, oracle accept=%v", desc, err, accRule)
+				} else if wrong(err == nil, wantOK) {
+					r.Failf("cipher.VerifySignatureRecoverPubKey:wrong-verdict", cs, "%s: err=%v, mathematically valid=%v", desc, err, wantOK)
 				}
-				if v := skysecp.VerifySignatureValidity(s65); (v == 1) != (recid <= 3 && !highS) {
+				if v := skysecp.VerifySignatureValidity(s65); (recid > 3 && v == 1) || (recid <= 3 && !highS && v != 1) {
 					r.Failf("secp256k1.VerifySignatureValidity:wrong-verdict", cs, "%s: %d", desc, v)
 				}
 				for ki, k := range keys {
 					c.eval("verify")
 					vcs := map[string]string{"family": "verify", "r": cs["r"], "s": cs["s"], "recid": cs["recid"], "msg": cs["msg"], "pubkey": hx(k.pub)}
-					acc := accRule && bytes.Equal(want, k.pub)
+					acc := wantOK && bytes.Equal(want, k.pub) // mathematically valid for this key
 					vcls := "verify:reject:mismatch"
 					switch {
+					case acc && highS:
+						vcls = "verify:valid-high-s"
 					case acc:
 						vcls = "verify:accept"
 					case !rOK || !sOK:
 						vcls = "verify:reject:range"
 					case recid > 3:
 						vcls = "verify:reject:recid"
-					case highS:
-						vcls = "verify:reject:high-s"
 					case !mok:
 						vcls = "verify:reject:no-recovery"
 					}
@@ -443,21 +458,21 @@ func c14Recover(c *c14ctx, S []num, alphabet map[string]interface{}) {
 					var v int
 					if pn, pm := engine.Catch(func() { v = skysecp.VerifySignature(msg, s65, k.pub) }); pn {
 						r.Failf("secp256k1.VerifySignature:panic", vcs, "%s key=%s: panics: %s", desc, k.name, pm)
-					} else if (v == 1) != acc {
-						r.Failf("secp256k1.VerifySignature:wrong-verdict:"+vcls[len("verify:"):], vcs, "%s key=%s: VerifySignature=%d, oracle accept=%v", desc, k.name, v, acc)
+					} else if wrong(v == 1, acc) {
+						r.Failf("secp256k1.VerifySignature:wrong-verdict:"+vcls[len("verify:"):], vcs, "%s key=%s: VerifySignature=%d, mathematically valid=%v", desc, k.name, v, acc)
 					}
 					// top
 					var kp cipher.PubKey
 					copy(kp[:], k.pub)
 					if pn, pm := engine.Catch(func() { err = cipher.VerifyPubKeySignedHash(kp, csig, h) }); pn {
 						r.Failf("cipher.VerifyPubKeySignedHash:panic-instead-of-error", vcs, "%s key=%s: panics: %s", desc, k.name, pm)
-					} else if (err == nil) != acc {
-						r.Failf("cipher.VerifyPubKeySignedHash:wrong-verdict:"+vcls[len("verify:"):], vcs, "%s key=%s: err=%v, oracle accept=%v", desc, k.name, err, acc)
+					} else if wrong(err == nil, acc) {
+						r.Failf("cipher.VerifyPubKeySignedHash:wrong-verdict:"+vcls[len("verify:"):], vcs, "%s key=%s: err=%v, mathematically valid=%v", desc, k.name, err, acc)
 					}
 					if pn, pm := engine.Catch(func() { err = cipher.VerifyAddressSignedHash(k.addr, csig, h) }); pn {
 						r.Failf("cipher.VerifyAddressSignedHash:panic-instead-of-error", vcs, "%s key=%s: panics: %s", desc, k.name, pm)
-					} else if (err == nil) != acc {
-						r.Failf("cipher.VerifyAddressSignedHash:wrong-verdict:"+vcls[len("verify:"):], vcs, "%s key=%s: err=%v, oracle accept=%v", desc, k.name, err, acc)
+					} else if wrong(err == nil, acc) {
+						r.Failf("cipher.VerifyAddressSignedHash:wrong-verdict:"+vcls[len("verify:"):], vcs, "%s key=%s: err=%v, mathematically valid=%v", desc, k.name, err, acc)
 					}
 				}
 			}
